@@ -132,11 +132,23 @@ class CodeData(DataclassHideDefault):
         Iterates through all the code data which are included,
         by processing the arguments recursively.
         """
-        for block in self.blocks:
-            for instruction in block:
-                arg = instruction.arg
-                if isinstance(arg, Constant) and isinstance(arg.constant, CodeData):
-                    yield arg.constant
+        from ._blocks import FromArgs, from_arg
+        from ._constants import constant_key
+
+        # Build the table of constants like we do when creating the code object, so that
+        # a constant which is used multiple times is returned once, and those which
+        # are not used by any instruction are returned as well.
+        constants = FromArgs[ConstantValue](_hash_fn=constant_key)
+        if isinstance(self.type, Function) and self.type.docstring is not None:
+            constants[0] = self.type.docstring
+        unused = FromArgs[str]()
+        args = [instruction.arg for block in self.blocks for instruction in block]
+        for arg in (*args, *self._additional_args):
+            if isinstance(arg, Constant):
+                from_arg(arg, self.type, self.freevars, unused, unused, unused, constants)
+        for _, constant in sorted(constants._i_to_arg.items()):
+            if isinstance(constant, CodeData):
+                yield constant
 
     def all_code_data(self) -> Iterator[CodeData]:
         """
